@@ -110,6 +110,10 @@ COMPONENT_SPECS = [
     {"kind": "cert", "allow_fp": None, "prefix": "/priv"},
     {"kind": "cert", "allow_fp": "other", "prefix": "/private/d"},
     {"kind": "cert", "allow_fp": None, "prefix": "/private/up"},
+    # one component, the same prefix twice (strict first, lax second)
+    {"kind": "cert", "allow_fp": "other", "prefix": "/", "then_lax_duplicate": "any-cert"},
+    {"kind": "cert", "allow_fp": "other", "prefix": "/private/", "then_lax_duplicate": "nothing-required"},
+    {"kind": "cert", "allow_fp": None, "prefix": "/", "then_lax_duplicate": "nothing-required"},
 ]
 
 
@@ -140,7 +144,11 @@ def build_component(spec, log, loop, client_fp, idx):
             fps = {certs.identity("c04-appended", "ec").fingerprint}
         elif spec["allow_fp"] == "other":
             fps = {"sha256:" + "ab" * 32}
-        inner = CertificateAuth(CertificateAuthConfig(path_rules=[CertificateAuthPathRule(prefix=spec.get("prefix", "/"), require_cert=True, allowed_fingerprints=fps)]))
+        rules = [CertificateAuthPathRule(prefix=spec.get("prefix", "/"), require_cert=True, allowed_fingerprints=fps)]
+        if spec.get("then_lax_duplicate"):
+            # the same prefix once more further down, asking for less: the first matching rule applies
+            rules.append(CertificateAuthPathRule(prefix=spec.get("prefix", "/"), require_cert=bool(spec["then_lax_duplicate"] == "any-cert")))
+        inner = CertificateAuth(CertificateAuthConfig(path_rules=rules))
     elif k == "rate":
         inner = RateLimiter(RateLimitConfig(capacity=spec["capacity"], refill_rate=0.001, retry_after=7))
     else:
